@@ -6,7 +6,8 @@ from fractions import Fraction as Fr
 from ..nf import Rat, C
 from ..source import Unsupported, AnchorError, params
 from ..xlate import Interp, Obj, ListV, Elem, SumV, Raised, RankOrder
-from .common import (same, show, deriv, is_zero, slots_in, coeff_vector, mix_opaque, sel_opaque,
+from .rxnfix import set_public, get_public
+from .common import (same, show, deriv, is_zero, slots_in, coeff_vector, attached_models, attached_sum, sel_opaque,
                      sub, atoms_of)
 
 NASA = 'pmutt.empirical.nasa'
@@ -137,7 +138,8 @@ def nasa9_obj(I, repo, nseg, misc=None):
     segs = []
     for j in range(nseg):
         segs.append(Obj('seg%d' % j, sci, attrs={'a': coeff_vector(I, 's%d' % j, 9)}))
-    o = Obj('sp', ci, attrs={'_nasas': ListV(segs), 'misc_models': misc, 'name': 'sp'})
+    o = Obj('sp', ci, attrs={'misc_models': misc, 'name': 'sp'})
+    set_public(I, o, 'nasas', ListV(segs))
     sel_opaque(o)
     return o, segs
 
@@ -210,7 +212,7 @@ def check_get_nasa(run, repo, max_seg):
             ranks['T'] = 10 * j + 5
             I = Interp(repo, order=RankOrder(ranks))
             o, segs = nasa9_obj(I, repo, nseg)
-            o.attrs['_nasas'] = ListV(list(reversed(segs)))
+            set_public(I, o, 'nasas', ListV(list(reversed(segs))))
             sel, r = selected_segment(I, o, segs, I.D.sym('T'))
             run.check(sel == j, 'ORDER.segment', con, 'segments listed in descending order',
                       '[%d segments listed from high to low, T inside segment %d] the segment whose own bounds contain '
@@ -233,8 +235,8 @@ def class_rules(run, repo, max_len):
     # ---- Nasa ---------------------------------------------------------
     for seg, rankT in (('low', 2), ('high', 4), ('high@T_mid', 3)):
         I = Interp(repo, order=RankOrder({'sp.T_low': 1, 'sp.T_mid': 3, 'sp.T_high': 5, 'T': rankT}))
-        mix_opaque(I)
-        o = nasa_obj(I, repo, misc=ListV([Obj('m0')]))
+        misc = attached_models(I, 2)
+        o = nasa_obj(I, repo, misc=misc)
         T = I.D.sym('T')
         P = I.D.sym('P')
         a = o.attrs['a_low'] if rankT < 3 else o.attrs['a_high']
@@ -243,7 +245,7 @@ def class_rules(run, repo, max_len):
             ev[q] = I.call_method(o, 'get_' + q, [], {'T': T, 'P': P})
             m, f = fn_of(repo, NASA, 'get_nasa_' + q)
             bare = I.call_function(m, f, [], {'a': a, 'T': T})
-            mixq = SumV(C(0), I.D.sym('MIX<get_%s|P=%r,T=%r>' % (q, P, T)))
+            mixq = attached_sum(I, misc, q, T=T, P=P)
             want = I.binop('+', bare, mixq)
             owner, fn = repo.find_method(o.ci, 'get_' + q)
             run.fn(owner.qual + '.get_' + q)
@@ -266,15 +268,15 @@ def class_rules(run, repo, max_len):
             ranks = seg_ranks(nseg)
             ranks['T'] = 10 * j + 5
             I = Interp(repo, order=RankOrder(ranks))
-            mix_opaque(I)
-            o, segs = nasa9_obj(I, repo, nseg, misc=ListV([Obj('m0')]))
+            misc = attached_models(I, 2)
+            o, segs = nasa9_obj(I, repo, nseg, misc=misc)
             T = I.D.sym('T')
             P = I.D.sym('P')
             for q in ('CpoR', 'HoRT', 'SoR'):
                 got = I.call_method(o, 'get_' + q, [], {'T': T, 'P': P})
                 m, f = fn_of(repo, NASA, 'get_nasa9_' + q)
                 bare = I.call_function(m, f, [], {'a': segs[j].attrs['a'], 'T': T})
-                mixq = SumV(C(0), I.D.sym('MIX<get_%s|P=%r,T=%r>' % (q, P, T)))
+                mixq = attached_sum(I, misc, q, T=T, P=P)
                 want = I.binop('+', bare, mixq)
                 owner, fn = repo.find_method(o.ci, 'get_' + q)
                 run.fn(owner.qual + '.get_' + q)
@@ -293,8 +295,8 @@ def class_rules(run, repo, max_len):
     # ---- Shomate ----------------------------------------------------------
     I = Interp(repo, order=RankOrder({'sp.T_low': 1, 'sp.T_high': 5, 'T': 3}))
     sci = repo.cls(SHO + '.Shomate')
-    o = Obj('sp', sci, attrs={'a': coeff_vector(I, 'a', 8), 'misc_models': None, 'name': 'sp',
-                              '_units': I.D.sym('units')})
+    o = Obj('sp', sci, attrs={'a': coeff_vector(I, 'a', 8), 'misc_models': None, 'name': 'sp'})
+    set_public(I, o, 'units', I.D.sym('units'))
     sel_opaque(o)
     T = I.D.sym('T')
     for sel in (None, True):
@@ -334,8 +336,8 @@ def class_rules(run, repo, max_len):
         for i in range(n):
             ranks['T%d' % i] = 3
         I = Interp(repo, order=RankOrder(ranks))
-        o = Obj('sp', sci, attrs={'a': coeff_vector(I, 'a', 8), 'misc_models': None, 'name': 'sp',
-                                  '_units': I.D.sym('units')})
+        o = Obj('sp', sci, attrs={'a': coeff_vector(I, 'a', 8), 'misc_models': None, 'name': 'sp'})
+        set_public(I, o, 'units', I.D.sym('units'))
         sel_opaque(o)
         return I, o
 
